@@ -64,6 +64,7 @@ namespace xsv
         TypeId out_type[NT];
         LaneJudge judge[NT];
         bool div_like = false;
+        bool agree = false; // C17: every target's lane-0 result must be bit-identical to the first (scalar) target's
         bool cheap_only = false; // skip the large strided/exhaustive enumerations (value-independent data movement) // second operand must avoid 0 when neutral filler is needed
         std::string gen_hint; // driver-specific generation hint
         OpDef()
@@ -255,6 +256,7 @@ namespace xsv
             cx.current.in_hex.push_back(hex(c.in[i], (size_t)n * in_stride(d, i, t)));
         e->fn(&a);
         cx.current_valid = false;
+        memcpy(cx.last_out, out0, sizeof cx.last_out);
         cx.st.executions++;
         if (!fpenv_ok())
         {
@@ -338,6 +340,35 @@ namespace xsv
         return fails;
     }
 
+    // execute without judging; out receives the 128-byte output image
+    inline void exec_raw(Context& cx, const ElemCase& c, const Target& tg, const xsv_entry* e, unsigned char* out)
+    {
+        const OpDef& d = *c.op;
+        alignas(64) unsigned char out0[128], out1[128];
+        memset(out0, 0xCD, sizeof out0);
+        memset(out1, 0, sizeof out1);
+        xsv_args a;
+        for (int i = 0; i < 4; ++i)
+            a.in[i] = i < d.arity ? c.in[i] : nullptr;
+        a.out[0] = out0;
+        a.out[1] = out1;
+        a.imm[0] = c.imm;
+        a.imm[1] = 0;
+        cx.current_valid = true;
+        cx.current.op = d.name;
+        cx.current.type = kTypeNames[c.type];
+        cx.current.target = tg.name;
+        cx.current.prop = cx.opt.prop;
+        cx.current.imm[0] = c.imm;
+        cx.current.in_hex.clear();
+        for (int i = 0; i < d.arity; ++i)
+            cx.current.in_hex.push_back(hex(c.in[i], (size_t)e->lanes * in_stride(d, i, c.type)));
+        e->fn(&a);
+        cx.current_valid = false;
+        cx.st.executions++;
+        memcpy(out, out0, 128);
+    }
+
     // broadcast the operands of `lane` to every lane (precondition-preserving simplification)
     inline ElemCase broadcast_lane(const ElemCase& c, int lane)
     {
@@ -393,12 +424,31 @@ namespace xsv
         unsigned cls_all = 0;
         bool differ_all = false;
         bool failed = false;
+        unsigned char first_out[16];
         for (size_t k = 0; k < r.tg.size(); ++k)
         {
             unsigned cls = 0;
             bool differ = false;
             Violation v;
             int f = exec_on(cx, c, *r.tg[k], r.e[k], &cls, &differ, &v);
+            if (d.agree && !f)
+            {
+                const int ob = d.out == O_BOOL ? 1 : kTypeBytes[d.out_type[c.type]];
+                if (k == 0)
+                    memcpy(first_out, cx.last_out, 16);
+                else if (memcmp(first_out, cx.last_out, ob) != 0)
+                {
+                    // NaN results agree with each other whatever their payload
+                    bool bothnan = false;
+                    if (c.type == F32) { float x, y; memcpy(&x, first_out, 4); memcpy(&y, cx.last_out, 4); bothnan = x != x && y != y; }
+                    if (c.type == F64) { double x, y; memcpy(&x, first_out, 8); memcpy(&y, cx.last_out, 8); bothnan = x != x && y != y; }
+                    if (!bothnan)
+                    {
+                        f = 1;
+                        v = make_violation(cx, c, *r.tg[k], r.e[k], 0, first_out, cx.last_out, "lane 0 of the batch result differs from the scalar overload's result (" + r.tg[0]->name + ")");
+                    }
+                }
+            }
             cls_all |= cls;
             differ_all |= differ;
             if (f)
